@@ -220,7 +220,7 @@ def run(F, R, tier):
         cs = {e[1][0] for s in oks for e in s.emits if e[0] == "Constant"}
         R.ob("literal-constant", "%s literal → Constant(%s(value))" % (var, ctor), len(cs) == 1 and re.fullmatch(r"const:%s\(\w+\.value\)" % re.escape(ctor), next(iter(cs))) is not None, str(sorted(cs)), F.loc(f))
     oks, r = paths("Bool")
-    tf = {(s.facts.get("cond:b.value"), tuple(e[0] for e in s.emits)) for s in oks}
+    tf = {(e5run.cfact(s, r["pname"], "cond", "$:Bool.value"), tuple(e[0] for e in s.emits)) for s in oks}
     R.ob("literal-constant", "boolean literal → True / False by its value", tf == {(True, ("True",)), (False, ("False",))}, str(sorted(tf, key=repr)), F.loc(f))
     oks, r = paths("Null")
     R.ob("literal-constant", "null literal → Null", {tuple(e[0] for e in s.emits) for s in oks} == {("Null",)}, "", F.loc(f))
